@@ -321,6 +321,9 @@ func (s *MemoryBackend) read(ctx context.Context, store string, filter storage.R
 			telemetry.TraceError(span, err)
 			return nil, err
 		}
+		if from < 0 {
+			return nil, storage.ErrInvalidContinuationToken
+		}
 	}
 
 	if from <= len(matches) {
